@@ -65,6 +65,7 @@ let parse st line =
   | ["MKF"; f; c; t; s] -> CMKFun (sfun f c, n t, n s)
   | ["MOP"; form; o; t; s] -> CMOp ((form = "noalias"), sop o, n t, n s)
   | ["MSCAL"; o; t; c] -> CMScal (sop o, n t, z c)
+  | ["SPMV"; form; o; t; a; v; tr] -> CSpmv ((form = "noalias"), sop o, n t, n a, n v, (tr <> "0"))
   | ["MFILL"; id; seed] -> CMFill (n id, n seed)
   | ["DKA"; t; s] -> CMBlk (None, n t, n s)
   | ["DKF"; f; c; t; s] -> CMBlk (Some (sfun f c), n t, n s)
